@@ -377,6 +377,10 @@ func (ps *Pieces) del(p uint32, force bool) (done bool, complete bool) {
 		}
 		verifYield("del.relock", p)
 		ps.mu.Lock()
+		if ps.pieces[p].data == nil {
+			// freed by Finalise while we were waiting
+			return
+		}
 	}
 
 	done = true
